@@ -178,7 +178,7 @@ def run_case(case):
                     fn = fn_for(i)
                     args = [futs[d] if d in futs else ("missing", d) for d in c.get("deps", [])]
                     args += list(c.get("args", []))
-                    if c.get("nest"):
+                    for _ in range(int(c.get("nest") or 0)):      # True = one list level, 2 = [[...]]
                         args = [args]
                     if c.get("unpicklable"):
                         args = list(args) + [threading.Lock()]       # cannot be sent to the worker: pickling fails in the thread
